@@ -3,12 +3,14 @@ pub mod emplace;
 pub mod framing;
 pub mod hist;
 pub mod io;
+pub mod scalars;
 
 use crate::engine::{Ctx, Report};
 
 pub fn dispatch(ctx: &Ctx, rep: &mut Report) {
     match ctx.prop.as_str() {
         "C01" | "C02" => bytes_in::run(ctx, rep),
+        "C16" => scalars::run(ctx, rep),
         "C06" | "C19" => framing::run(ctx, rep),
         "C07" | "C08" | "C09" | "C10" => io::run(ctx, rep),
         "C05" | "C11" | "C12" | "C13" | "C14" | "C18" => hist::run(ctx, rep),
